@@ -174,8 +174,10 @@ def jGraph (j : Json) : P Efp.Graph.G := do
     let anc ← (← jArr (← fld o "anc")).toList.mapM jInt
     let chi ← (← jArr (← fld o "chi")).toList.mapM jInt
     let inDict := match fldOpt o "dict" with | some (.bool b) => b | _ => false
+    let isCalc := match fldOpt o "calc" with | some (.bool b) => b | _ => false
+    let live := match fldOpt o "live" with | some (.bool b) => b | _ => true
     pure ({ uid := (← jInt (← fld o "uid")).toNat, sid := (← jInt (← fld o "sid")).toNat, inDict,
-            anc := anc.map Int.toNat, chi := chi.map Int.toNat } : Efp.Graph.GNode))
+            anc := anc.map Int.toNat, chi := chi.map Int.toNat, isCalc, live } : Efp.Graph.GNode))
   pure ns.toArray
 
 def handle (j : Json) : P Json := do
@@ -218,9 +220,13 @@ def handle (j : Json) : P Json := do
     let g ← jGraph (← fld j "g")
     let starts ← (← jArr (← fld j "starts")).toList.mapM jInt
     let fuel := 4 * g.size * g.size + 100
+    let calcs := Efp.Graph.calcSlots g
     let res := starts.map (fun s =>
       match Efp.Graph.attrUpdatesChain g fuel s.toNat with
-      | some c => Json.arr (c.map (fun p => Json.arr #[Json.num (p.1 : Int), Json.bool p.2])).toArray
+      | some c =>
+        let ok := Efp.Theory.chainOk (Efp.Graph.slotReads g) calcs [(g[s.toNat]!).sid] (c.map (·.1))
+        Json.mkObj [("chain", Json.arr (c.map (fun p => Json.arr #[Json.num (p.1 : Int), Json.bool p.2])).toArray),
+                    ("ok", Json.bool ok)]
       | none => Json.str "hang")
     pure (Json.mkObj [("chains", Json.arr res.toArray)])
   | _ => throw s!"unknown cmd {cmd}"
